@@ -12,7 +12,8 @@ EXPLANATION = ("R15.1 every payload sent over a writer channel is control-by-con
                "tables for every variant, and FileLogWriter::new maps Direct/Buffer* to the synchronous and Async* to the asynchronous handle; "
                "R15.3 one funnel: all modes hand the unchanged formatted buffer (normal and recursion arm with the same configured line ending) "
                "resp. the unchanged chunk to State::write_buffer, whose table is mode-free; R15.4 pooled buffers of the async modes are cleared immediately before they return to the pool, whatever message they carried (shared with R03.3/R03.4). R15.3 also: in the async arm of plain_write every path sends the chunk exactly once and writes nothing past the channel. R15.5 the shutdown/flush tables of the file writer flush the active writer in every mode, with or without rotation (shared with R04.1)."
-               " R15.6 (shared with R01.4): at a rotation the buffered tail reaches the closed file (writer swap) before the cleanup may compress / remove it, so buffered and direct modes leave the same bytes.")
+               " R15.6 (shared with R01.4): at a rotation the buffered tail reaches the closed file (writer swap) before the cleanup may compress / remove it, so buffered and direct modes leave the same bytes."
+               " R15.7 write-mode wiring: Logger::write_mode stores without_flushing(mode) in the file writer's builder and keeps get_flush_interval(mode); the builder's mode reaches config.write_mode (shared configuration-wiring tables, rules/cfgwiring.py).")
 ASSUMPTIONS = ["BufWriter does not alter bytes (std)", "C04 for what is flushed at shutdown"]
 NOT_DECIDED = ["equality of final file contents across modes as such (follows from R15.1-3 + C04 only with BufWriter semantics)"]
 FLOORS = {'R15.1': 4, 'R15.2': 30, 'R15.3': 3}
@@ -41,6 +42,9 @@ ORACLE = {
 
 
 def run(R, ctx):
+    R.rule('R15.7', "write-mode wiring: Logger::write_mode stores without_flushing(mode) in the file writer's builder and keeps get_flush_interval(mode); the builder's mode reaches config.write_mode")
+    import cfgwiring
+    cfgwiring.config_wiring(R, ctx, 'R15.7', 'C15')
     R.rule('R15.1', 'PROVENANCE(channel payload) + CONST-AGREE(control constants vs line endings)')
     R.rule('R15.2', 'TABLE(WriteMode functions per variant); handle kind per effective mode')
     R.rule('R15.3', 'one funnel: unchanged bytes reach the mode-free sink')
